@@ -150,6 +150,7 @@ def concretize(model, x):
 
 def outcome_class(o):
     if isinstance(o, tuple): return str(o[0]) + ':' + str(o[1])
+    if is_sym(o.get('ok')): return 'ok:sym'
     if o.get('ok'): return 'ok'
     e = o.get('err')
     return 'err:' + (str(e) if not is_sym(e) else 'sym')
